@@ -175,29 +175,25 @@ Fixpoint combine_prod (ops : list op) (acc : list op) : list op :=   (* acc is o
   | o :: t => combine_prod t (o :: acc)
   end.
 
+(* the part of ChainOperator.simplify after the two early returns *)
+Definition chain_general (ops : list op) : list op :=
+  let ops1 := unpack_chain ops in
+  let '(fct, ops2) := collect_chain_scal ops1 (one A) in
+  let '(fct', ops3) :=
+    if negb (eqb A fct (one A))
+    then match absorb_scale ops2 fct with Some r => (one A, r) | None => (fct, ops2) end
+    else (fct, ops2) in
+  let ops4 :=
+    if negb (eqb A fct' (one A)) || (match ops3 with [] => true | _ => false end)
+    then ops3 ++ [Scal fct' None] else ops3 in
+  combine_prod ops4 [].
+
 Definition chain_simplify (ops : list op) : list op :=
   match ops with
-  | [o] => [o]
-  | _ =>
-    let early :=
-      match ops with
-      | [a; b] => if isIdentity a then Some [b] else if isIdentity b then Some [a] else None
-      | _ => None
-      end in
-    match early with
-    | Some r => r
-    | None =>
-      let ops1 := unpack_chain ops in
-      let '(fct, ops2) := collect_chain_scal ops1 (one A) in
-      let '(fct', ops3) :=
-        if negb (eqb A fct (one A))
-        then match absorb_scale ops2 fct with Some r => (one A, r) | None => (fct, ops2) end
-        else (fct, ops2) in
-      let ops4 :=
-        if negb (eqb A fct' (one A)) || (match ops3 with [] => true | _ => false end)
-        then ops3 ++ [Scal fct' None] else ops3 in
-      combine_prod ops4 []
-    end
+  | [o] => [o]                                   (* if len(ops) == 1: return ops *)
+  | [a; b] =>                                    (* if len(ops)==2: identity shortcuts *)
+      if isIdentity a then [b] else if isIdentity b then [a] else chain_general ops
+  | _ => chain_general ops
   end.
 
 Definition mk_chain (ops : list op) : op :=
